@@ -1,4 +1,5 @@
 import Proofs.Query
+import Proofs.QueryShape
 import Proofs.MetaState
 
 /-!
@@ -227,5 +228,76 @@ def stSub : State :=
 example : navSubtype schSub stSub 0 "R3" = some (some 7) ∧ navSubtype schSub stSub 3 "R3" = some none := by decide
 example : (selectMany (fun x _ => some (Int.ofNat x)) { init with pool := fun _ => [4, 2, 9] } 0
     [.orderBy ["v"] true, .pred (.geC "v" 3)]) = [9, 4] := by decide
+
+end PyxProps.C09
+
+/-! ==========================================================================================================
+  SOURCE TIE of the query side  (section owned by the QueryShape extension)
+
+  translator/gen_queryshape.py reads apply_query_operators, WhereEqual.__call__, OrderBy.__call__, MetaClass /
+  MetaModel select_one / select_many (select_any), QuerySet.first / last, the NavChain family, MetaClass.navigate,
+  _find_assoc_links, Link.navigate and navigate_subtype with `ast` on every run and emits their statement structure
+  as a first-order IR (lean/Gen/QueryShape.lean); statements the IR does not parameterise are compared exactly, any
+  other shape makes the generator raise (broken tie).  Proofs/QueryShape.lean defines ONE generic interpreter of
+  that IR (`Pyx.QShape.i…`).  The theorems below state that the model of PyxModel/Query.lean IS the interpretation
+  of the IR generated from the current source.
+  ========================================================================================================== -/
+namespace PyxProps.C09
+open Pyx.Meta Pyx.Query Pyx.QShape Pyx.Gen.QueryShape
+
+/-- apply_query_operators: every operator is dispatched as the source's isinstance chain says (a where_eq / an
+    order_by is called on the sequence, a plain function filters it) and the operators are folded left to right;
+    where_eq keeps, in order, the instances for which no item compares unequal; order_by is the stable sort on the
+    attribute list, the reverse flag being handled inside `sorted` -/
+theorem query_ops_as_in_source (val : Valuation) (l : List Inst) (op : QOp) (ops : List QOp) :
+    applyOp val l op = iApplyOp opDispatch opElse whereShape orderShape val l op ∧
+    applyOps val l ops = iApplyOps opDispatch opElse whereShape orderShape val l ops :=
+  ⟨applyOp_eq val l op, applyOps_eq val l ops⟩
+
+/-- select_many / select_one (= select_any): the operators applied to the storage in creation order, then a
+    QuerySet resp. the first element or None -/
+theorem select_as_in_source (val : Valuation) (s : State) (k : Kind) (ops : List QOp) :
+    selectMany val s k ops =
+      iMany selectManyResult (iApplyOps opDispatch opElse whereShape orderShape val (s.pool k) ops) ∧
+    selectOne val s k ops =
+      iOne selectOneResult (iApplyOps opDispatch opElse whereShape orderShape val (s.pool k) ops) :=
+  ⟨selectMany_eq val s k ops, selectOne_eq val s k ops⟩
+
+/-- MetaClass.navigate with _find_assoc_links: the direct entry, else the first link of the class that the source's
+    skip test lets through and whose far class has the key -/
+theorem navigate_as_in_source (sch : Schema) (s : State) (x : Inst) (toKind : Kind) (rel phrase : String) :
+    navigate sch s x toKind rel phrase = iNavigate assocSkip sch s x toKind rel phrase :=
+  navigate_eq sch s x toKind rel phrase
+
+/-- the navigation chains: one step visits the handle in order and yields every result of the per-instance
+    navigation (duplicates kept), steps are chained, the operators are applied to the final sequence, and the
+    result is a QuerySet (navigate_many) resp. the first element or None (navigate_one / navigate_any) -/
+theorem nav_chain_as_in_source (sch : Schema) (val : Valuation) (s : State) (h : List Inst) (st : Step)
+    (steps : List Step) (ops : List QOp) :
+    navStep sch s h st = iNavStep navInner (fun x => iNavigate assocSkip sch s x st.toKind st.rel st.phrase) h ∧
+    navSeq sch s h steps = iNavSeq navInner assocSkip sch s h steps ∧
+    navMany sch val s h steps ops = (iNavSeq navInner assocSkip sch s h steps).map
+      (fun l => iMany navManyResult (iApplyOps opDispatch opElse whereShape orderShape val l ops)) ∧
+    navOne sch val s h steps ops = (iNavSeq navInner assocSkip sch s h steps).map
+      (fun l => iOne navOneResult (iApplyOps opDispatch opElse whereShape orderShape val l ops)) :=
+  ⟨navStep_eq' sch s h st, navSeq_eq sch s h steps, navMany_eq sch val s h steps ops, navOne_eq sch val s h steps ops⟩
+
+/-- navigate_subtype: the link keys in dict order, skipped as the source's test says, the first that yields wins -/
+theorem nav_subtype_as_in_source (sch : Schema) (s : State) (x : Inst) (rel : String) :
+    navSubtype sch s x rel =
+      iNavSubtypeFrom subtypeSkip (fun k => iNavigate assocSkip sch s x k rel "") rel (linkDict sch (s.kindOf x)) :=
+  navSubtypeFrom_eq sch s x rel _
+
+/-! non-vacuity: the interpreter runs the generated IR (it is not a renaming of the model), and another IR gives
+    another function -/
+example : iApplyOps opDispatch opElse whereShape orderShape (fun x n => if n = "P" then some (Int.ofNat (x % 2)) else some (Int.ofNat x))
+    [3, 1, 4, 2, 6] [.orderBy ["P"] true, .whereEq [("P", some 0)], .pred (.geC "v" 4)] = [4, 6] := by decide
+example : iNavigate assocSkip schAB stAB 0 1 "R2" "" = some [20, 21] ∧ iNavigate assocSkip schAB stAB 0 2 "R2" "" = some [10, 11, 12] ∧
+    iNavSeq navInner assocSkip schAB stAB [0, 0] [⟨2, "R2", ""⟩, ⟨1, "R2", ""⟩] = some [20, 21, 20, 20, 21, 20] := by decide
+/-- a where_eq that broke on EQUAL items, or an order_by that did not pass the reverse flag, would be different functions -/
+example : iWhere { breakWhen := .eq, yieldWhen := .completed } (fun x _ => some (Int.ofNat x)) [("v", some 3)] [3, 4] = [4] ∧
+    iWhere whereShape (fun x _ => some (Int.ofNat x)) [("v", some 3)] [3, 4] = [3] ∧
+    iOrder { key := .listOfGetattr, passesReverseFlag := false } (fun x _ => some (Int.ofNat x)) ["v"] true [1, 3, 2] = [1, 2, 3] ∧
+    iOrder orderShape (fun x _ => some (Int.ofNat x)) ["v"] true [1, 3, 2] = [3, 2, 1] := by decide
 
 end PyxProps.C09
